@@ -98,8 +98,10 @@ def _mixed_lens(rng, T, N):
 
 
 def _lm(rng, N, beta, vm):
+    # "raw": the model hands back UNNORMALISED scores (row-wise shifted logits); the search normalises them
+    # itself (softmax / log_softmax), so P_lm - and hence every reported mass - is unchanged
     return {"seed": rng.randrange(10 ** 6), "scale": rng.choice([1.0, 1.0, 4.0]), "beta": beta,
-            "valid_mixture": vm, "conds": [rng.randrange(1000) for _ in range(N)]}
+            "valid_mixture": vm, "conds": [rng.randrange(1000) for _ in range(N)], "raw": rng.random() < 0.5}
 
 
 def generate(rng, tier, i):
@@ -248,7 +250,9 @@ def _search(mon, case, logits, lens, conds, name):
     lm, init, beta, vm = None, None, 0.2, False
     if lmc is not None:
         table = LM.make_table(lmc["seed"], V, lmc["scale"])
-        lm = LM.hashlm_class()(V, table, logits.dtype)
+        lm = LM.hashlm_class()(V, table, logits.dtype, raw=bool(lmc.get("raw")))
+        if lmc.get("raw"):
+            mon.cls("lm_unnormalised_scores")
         init = {"cond": torch.tensor(conds, dtype=torch.long)}
         beta, vm = lmc["beta"], lmc["valid_mixture"]
     _REC = steps = []
